@@ -859,6 +859,42 @@ def rule_validator_types(ctx: Ctx, rule: str = "validator-types") -> None:
         else:
             ctx.violation(rule, chk.key, construct, "no such type check before from_dict converts the field: a machine dictionary with that field of the wrong kind escapes as TypeError", where=chk.where)
     ctx.floor("clause field type checks needed", n, 3)
+    # top level: every field is a list; a test that a string also passes (Sequence, Iterable, ...) lets
+    # "input_vars": "i" through, which is then read character by character
+    val = prog.func("serializer.validate_contract_dict")
+    p0v = val.params[0]
+    fl = Flow(val.node)
+    field_names = set()
+    for nm, defs in fl.defs.items():
+        if any(isinstance(d, ast.Subscript) and isinstance(d.value, ast.Name) and d.value.id == p0v for d in defs):
+            field_names.add(nm)
+    tests = []
+    for node in ast.walk(val.node):
+        if isinstance(node, ast.Call) and isinstance(node.func, ast.Name) and node.func.id == "isinstance" and len(node.args) == 2:
+            a0 = node.args[0]
+            direct = isinstance(a0, ast.Subscript) and isinstance(a0.value, ast.Name) and a0.value.id == p0v
+            if (isinstance(a0, ast.Name) and a0.id in field_names) or direct:
+                tests.append(node)
+    construct = "validate_contract_dict: a field that is not a list is rejected (a string is not a list)"
+    concrete = {"list", "tuple", "List", "Tuple", "MutableSequence"}
+    str_accepting = {"Sequence", "Iterable", "Collection", "Container", "Sized", "Reversible", "Hashable", "object", "str"}
+    if not tests:
+        ctx.violation(rule, val.key, construct, "the kind of the top-level fields is never tested", where=val.where)
+    else:
+        bad = []
+        unknown = []
+        for t_ in tests:
+            names = {x.attr if isinstance(x, ast.Attribute) else x.id for x in ast.walk(t_.args[1]) if isinstance(x, (ast.Name, ast.Attribute))} - {"typing", "abc", "collections"}
+            if names & str_accepting:
+                bad.append(norm(t_))
+            elif not names <= concrete:
+                unknown.append(norm(t_))
+        if bad:
+            ctx.violation(rule, val.key, construct, "`%s` is also true of a string: \"input_vars\": \"i\" is accepted and read as ['i'], a constraint string is parsed character by character" % bad[0], where=val.where)
+        elif unknown:
+            ctx.cannot_decide(rule, val.key, construct, "type test `%s` is not one of list / tuple" % unknown[0])
+        else:
+            ctx.ok(rule, val.key, construct)
 
 
 def _is_values_loop_var(fi: FuncInfo, e: ast.AST) -> bool:
